@@ -54,6 +54,12 @@ def main(argv=None):
     if args.only:
         units = [u for u in units if args.only in u]
     results = runner.run_units(f"pdv.contracts.{prop}", units, tier, jobs=args.jobs)
+    # units with undecided proof obligations are re-run once with little parallelism (solver budgets are
+    # wall-clock; a busy machine must not turn a provable obligation into UNDECIDED)
+    retry = [r["unit"] for r in results if any(o["kind"] != "cover" and o["status"] == "unknown" for o in r["results"])]
+    if retry:
+        again = {r["unit"]: r for r in runner.run_units(f"pdv.contracts.{prop}", retry, tier, jobs=min(4, len(retry)))}
+        results = [again.get(r["unit"], r) if r["unit"] in again and not again[r["unit"]]["error"] else r for r in results]
     results.sort(key=lambda r: r["unit"])
 
     findings = runner.load_known_findings()
